@@ -232,6 +232,17 @@ def check(ctx):
     with ctx.shared({'C09': 'C10.3', 'C11': 'C10.3'}):
         c09._reload(ctx)
         c11.forced_identity(ctx)
+    # shared with C09.3: pass 1 of a publication can only delete what the
+    # cycle reported as the old server - a placement change made outside the
+    # before/after snapshots is created in pass 2 without its delete
+    from . import sched_model as SM
+    SM.snapshot_brackets(ctx, 'C10.1')
+    # shared with C09.4: a placement that restore_placement could not put
+    # back has its record deleted at once (the next cycle places the
+    # instance elsewhere without knowing about the old record)
+    with ctx.shared({'C09': 'C10.1'}):
+        c09.writer_callers(ctx, ctx.index.get_class(K.MASTER, 'Master'),
+                           rule='C10.1')
 
 
 def _feeder(ctx, loader, nz, rule='C10.3'):
